@@ -23,6 +23,9 @@ pub enum StressSink {
     /// blocking Unix socket whose receiver is not read for a while: one thread
     /// blocks in sendto inside the sink's critical section while others emit
     UnixBlockedReceiver,
+    /// the documented production setup: client over a QueuingMetricSink over a
+    /// buffered (spy) sink; flushes go through the queuing wrapper
+    QueuedSpy,
 }
 
 #[derive(Serialize, Deserialize, Clone, Debug)]
@@ -91,7 +94,19 @@ impl Campaign for StressCampaign {
         let mut _tmp = None;
         let mut spy_rx = None;
         let mut reader: Option<std::thread::JoinHandle<()>> = None;
+        let released = Arc::new(std::sync::atomic::AtomicUsize::new(0));
         let client: StatsdClient = match case.sink {
+            StressSink::QueuedSpy => {
+                let (rx, sink) = BufferedSpyMetricSink::with_capacity(None, Some(case.cap));
+                spy_rx = Some(rx);
+                let rec = crate::sockets::Recording {
+                    inner: sink,
+                    log: Arc::new(Mutex::new(Vec::new())),
+                    done: Arc::new(std::sync::atomic::AtomicUsize::new(0)),
+                    released: crate::sockets::ReleaseSignal(released.clone()),
+                };
+                StatsdClient::from_sink("", cadence::QueuingMetricSink::from(rec))
+            }
             StressSink::Spy => {
                 let (rx, sink) = BufferedSpyMetricSink::with_capacity(None, Some(case.cap));
                 spy_rx = Some(rx);
@@ -163,7 +178,7 @@ impl Campaign for StressCampaign {
         // flush markers (spy only; nobody consumes the channel during the run, so its
         // length is the number of messages written so far): (thread, last acked seq, len)
         let markers: Arc<Mutex<Vec<(usize, i64, usize)>>> = Arc::new(Mutex::new(Vec::new()));
-        let spy_len = spy_rx.clone();
+        let spy_len = if case.sink == StressSink::Spy { spy_rx.clone() } else { None };
         // ---- producers
         let mut joins = Vec::new();
         for t in 0..case.threads as usize {
@@ -227,6 +242,16 @@ impl Campaign for StressCampaign {
         match Arc::try_unwrap(client) {
             Ok(c) => drop(c),
             Err(_) => panics.push("client still shared after join".into()),
+        }
+        if case.sink == StressSink::QueuedSpy {
+            // the queue drains in the background; the wrapped buffered sink is dropped (and flushed) last
+            let deadline = std::time::Instant::now() + w;
+            while released.load(Ordering::SeqCst) == 0 && std::time::Instant::now() < deadline {
+                std::thread::sleep(Duration::from_micros(200));
+            }
+            if released.load(Ordering::SeqCst) == 0 {
+                panics.push("the queuing sink did not release the wrapped buffered sink within W after the client was dropped".into());
+            }
         }
         // ---- collect
         let stream: Vec<Vec<u8>> = if let Some(rx) = spy_rx {
@@ -360,6 +385,7 @@ impl Campaign for StressCampaign {
         }
         classes.push(match case.sink {
             StressSink::Spy => "spy channel",
+            StressSink::QueuedSpy => "client over queuing sink over buffered spy sink",
             StressSink::Unix => "unix socket",
             StressSink::Udp => "udp socket (order and loss not judged)",
             StressSink::UnixBlockedReceiver => "unix socket, sender blocked inside the critical section",
